@@ -128,8 +128,41 @@ package main
 //@   call websockets.ShimBody
 //@     assert[C14:script-injector-only-when-enabled] injectShimCode && shimPath != "" && arg0 == shimPath && shims == 0
 //@     do shims = shims + 1
+//@   ensures[C07:handler-chain-or-error] r1 == nil ==> r0 != nil
 //@   return *
 //@     assert[C14:responses-rewritten-only-by-the-script-injector] rp != nil && (shims == 0 ==> rp.ModifyResponse == nil) && rp.Rewrite == nil
 //@     assert[C05:flush-interval-kept] rp.FlushInterval != 0 && rp.FlushInterval <= 100000000
 //@     assert[C07:error-handler-kept] rp.ErrorHandler == nil
 //@     assert[C02:no-rewrite-hook] rp != nil && rp.Rewrite == nil
+
+// ---- start-up and shutdown order (C20) ----
+// Polling and the periodic health checks start only after the start-up check has passed; the worker polls with the
+// cancellable polling context, not the process context; on a shutdown signal with a grace period the polling context
+// is cancelled before the grace period starts.
+//@ func main props(C20)
+//@   ghost healthy int = 0
+//@   ghost cancelled int = 0
+//@   ghost adapters int = 0
+//@   call waitForHealthy
+//@     assert[C20:start-up-check-runs-once-before-anything-else] healthy == 0 && adapters == 0
+//@     do healthy = healthy + 1
+//@   go runHealthChecks
+//@     assert[C20:periodic-checks-start-after-the-start-up-check] healthy == 1
+//@   go main$1
+//@     assert[C20:polling-starts-only-after-a-passing-health-check] healthy == 1 && adapters == 0
+//@     do adapters = adapters + 1
+//@   call funcvalue:context.CancelFunc
+//@     assert[C20:polling-cancelled-once-on-shutdown] cancelled == 0 && adapters == 1
+//@     do cancelled = cancelled + 1
+//@   call time.Sleep
+//@     assert[C20:polling-cancelled-before-the-grace-period] cancelled == 1 && arg0 == *gracefulShutdownTimeout && arg0 > 0
+//@ func main$1 props(C20)
+//@   requires requestPollingCtx != nil
+//@   call runAdapter
+//@     assert[C20:adapter-polls-with-the-cancellable-context] arg0 == ctx && arg1 == requestPollingCtx
+//@ func runAdapter props(C20)
+//@   requires requestPollingCtx != nil
+//@   ghost polls int = 0
+//@   call pollForNewRequests
+//@     assert[C20:worker-polls-with-the-polling-context] polls == 0 && arg0 == requestPollingCtx
+//@     do polls = polls + 1
